@@ -82,6 +82,13 @@ def tryTrimIpv6Brackets? (s : Str) : Option Str :=
   else if s.head? = some '[' ∧ s.getLast? = some ']' then slice? s 1 (s.length - 1)
   else some s
 
+/-- the value `tryTrimIpv6Brackets` returns; it never panics (`trim_never_panics`), the `none`
+    branch is dead -/
+def tryTrimIpv6Brackets (s : Str) : Str :=
+  match tryTrimIpv6Brackets? s with
+  | some r => r
+  | none => s
+
 /-- `trySplitHostPort` -/
 def trySplitHostPort (s : Str) : Str × Str :=
   match splitHostPort s with
@@ -103,7 +110,8 @@ def getDialAddr (urlAddr dialAddr defaultPort : Str) : Str :=
     if hasAtPrefix dialAddr then dialAddr
     else
       let (host, port) := trySplitHostPort dialAddr
-      if port.length = 0 then joinHostPort host defaultPort else dialAddr
+      -- "host may be an ipv6 address in brackets. JoinHostPort adds them."
+      if port.length = 0 then joinHostPort (tryTrimIpv6Brackets host) defaultPort else dialAddr
   else
     let (host, port) := trySplitHostPort urlAddr
     if port.length = 0 then joinHostPort host defaultPort else urlAddr
@@ -354,6 +362,8 @@ inductive Dial where
   /-- IP or domain, optional port; an IPv6 address is written bare without a port
       and bracketed with one -/
   | host (h : Host) (p : Option Str)
+  /-- an IPv6 address in brackets without a port: `[x]` -/
+  | bracketed (x : Str)
   /-- `@name`: abstract unix socket -/
   | unix (name : Str)
   /-- anything else: the property makes no claim -/
@@ -374,6 +384,7 @@ structure Case where
 def Dial.wf : Dial → Bool
   | .none => true
   | .host h p => h.wf && portWf p
+  | .bracketed x => isV6Body x
   | .unix _ => true
   | .raw _ => true
 
@@ -391,6 +402,7 @@ def Dial.render : Dial → Str
   | .host (.plain h) p => h ++ portSuffix p
   | .host (.v6 x) Option.none => x
   | .host (.v6 x) (Option.some p) => '[' :: x ++ ']' :: ':' :: p
+  | .bracketed x => '[' :: x ++ [']']
   | .unix n => '@' :: n
   | .raw s => s
 
@@ -511,6 +523,7 @@ def Case.target (c : Case) : Target :=
   match c.dial with
   | .none => .inet c.scheme.sock c.host.bare (c.port.getD c.scheme.defaultPort)
   | .host h p => .inet c.scheme.sock h.bare (p.getD c.scheme.defaultPort)
+  | .bracketed x => .inet c.scheme.sock x c.scheme.defaultPort
   | .unix n => if c.scheme.stream then .unix ('@' :: n) else .noClaim
   | .raw _ => .noClaim
 
@@ -597,6 +610,7 @@ def specForm (c : FormCase) (o : FormOut) : Bool :=
   (match c.dial with
    | .none => o.da == joinHostPort c.host.bare (c.port.getD c.dflt) && o.net == sTcp
    | .host h p => o.da == joinHostPort h.bare (p.getD c.dflt) && o.net == sTcp
+   | .bracketed x => o.da == joinHostPort x c.dflt && o.net == sTcp
    | .unix n => o.da == '@' :: n && o.net == sUnix
    | .raw _ => true)
 
@@ -647,13 +661,14 @@ def hostOf (kind : Option Str) (h : Option Str) : Option Host :=
   | some ['6'], some x => some (.v6 x)
   | _, _ => none
 
-/-- `dk` ∈ p | 6 | unix | raw (absent: no dial_addr) with `dh`, optional `dp` -/
+/-- `dk` ∈ p | 6 | b (bracketed IPv6, no port) | unix | raw (absent: no dial_addr) with `dh`, optional `dp` -/
 def dialOf (dk dh dp : Option Str) : Option Dial :=
   match dk with
   | none => some .none
   | some k =>
     if k = ['u', 'n', 'i', 'x'] then dh.map .unix
     else if k = ['r', 'a', 'w'] then dh.map .raw
+    else if k = ['b'] then dh.map .bracketed
     else (hostOf (some k) dh).map (fun h => .host h dp)
 
 def splitOnStr (sep : Char) (s : Str) : List Str := splitOnChar sep s
